@@ -159,6 +159,9 @@ def _num(v, full):
         return None
     if isinstance(v, Sx):
         return v.eval(full)
+    from .core import Qx
+    if isinstance(v, Qx):
+        return v.eval(full)
     if isinstance(v, (bool,)):
         return complex(int(v))
     return complex(v)
@@ -251,7 +254,7 @@ def process_config(job):
                                 break
                             if an:
                                 continue
-                            if path_subs:
+                            if path_subs and not isinstance(a, core.Qx) and not isinstance(b, core.Qx):
                                 a = core.subs_sx(symnp._sx(a), ctx, path_subs)
                                 b = core.subs_sx(symnp._sx(b), ctx, path_subs)
                             sym_pairs.append((a, b))
